@@ -56,11 +56,15 @@ SORT_NEG = [("SortMod_NegJumpAlways.cfg", "RowsSorted", "sort_replace jumps to t
 MC_QUICK = [("BreakdownMC_VQ.cfg", "V", "nosv 2 CPUs/2 threads"),
             ("BreakdownMC_6Q.cfg", "6", "nanos6 2 CPUs/2 threads"),
             ("BreakdownMC_V3Q.cfg", "V", "nosv 3 CPUs/3 threads"),
-            ("BreakdownMC_63Q.cfg", "6", "nanos6 3 CPUs/3 threads")]
+            ("BreakdownMC_63Q.cfg", "6", "nanos6 3 CPUs/3 threads"),
+            ("BreakdownMC_62L.cfg", "6", "nanos6 two looms (2+1 physical CPUs)"),
+            ("BreakdownMC_V2L.cfg", "V", "nosv two looms (2+1 physical CPUs)")]
 MC_THOROUGH = [("BreakdownMC_V.cfg", "V", "nosv 2 CPUs/2 threads, full alphabet"),
                ("BreakdownMC_6.cfg", "6", "nanos6 2 CPUs/2 threads, full alphabet"),
                ("BreakdownMC_V3.cfg", "V", "nosv 3 CPUs/3 threads"),
-               ("BreakdownMC_63.cfg", "6", "nanos6 3 CPUs/3 threads")]
+               ("BreakdownMC_63.cfg", "6", "nanos6 3 CPUs/3 threads"),
+               ("BreakdownMC_62L.cfg", "6", "nanos6 two looms (2+1 physical CPUs)"),
+               ("BreakdownMC_V2L.cfg", "V", "nosv two looms (2+1 physical CPUs)")]
 MC_NEG = [("BreakdownMC_NegSort.cfg", "wrong sort_replace (jump_always) in the composition"),
           ("BreakdownMC_NegStale.cfg", "StaleOK = FALSE: the stale mux selection must be reachable")]
 
